@@ -22,6 +22,12 @@ INP2 = (
     ("scaffold_1", (("F", "scaffold_1", 1, 20, 1), ("G", 3, "scaffold"), ("F", "scaffold_1", 24, 27, 1), ("G", 8, "scaffold"), ("F", "scaffold_1", 36, 65, 1))),
     ("scaffold_3", (("F", "scaffold_3", 1, 2, 1),)),
 )
+INP3 = (
+    ("HAP1_SCAFFOLD_1", (("F", "HAP1_SCAFFOLD_1", 1, 30, 1),)),
+    ("HAP2_SCAFFOLD_2", (("F", "HAP2_SCAFFOLD_2", 1, 28, 1),)),
+    ("HAP1_SCAFFOLD_3", (("F", "HAP1_SCAFFOLD_3", 1, 12, 1),)),
+    ("HAP2_SCAFFOLD_4", (("F", "HAP2_SCAFFOLD_4", 1, 14, 1),)),
+)
 BPT = 2.5
 TAGSETS = [(), ("Haplotig",), ("Contaminant",), ("FalseDuplicate",)]
 
@@ -56,6 +62,23 @@ def cases(tier):
                         tags = [()] * 3
                         tags[tagged_piece] = t
                         out.append((INP2, pv.make_pv(BPT, pieces, arr, painted, tags)))
+    # third family: two haplotypes (optionally Primary mode), a tagged piece inside a haplotype scaffold, and two
+    # contaminants from different input scaffolds joined in one Pretext scaffold (pieces are whole scaffolds, 2 bp/texel)
+    for primary in (False, True):
+        for xtag in ((), ("FalseDuplicate",), ("Haplotig",), ("Contaminant",)):
+            for join in (False, True):
+                for flip in (1, -1):
+                    h1 = ("Painted", "Hap1") + (("Primary",) if primary else ())
+                    s1 = ("Scaffold_1", (("HAP1_SCAFFOLD_1", 1, 30, 1, h1),))
+                    s2 = ("Scaffold_2", (("HAP2_SCAFFOLD_2", 1, 28, flip, ("Painted", "Hap2")), ("HAP2_SCAFFOLD_4", 1, 14, 1, ("Painted", "Hap2") + xtag)))
+                    ctag = ("Contaminant",) if join else ()
+                    s3 = ("Scaffold_3", (("HAP1_SCAFFOLD_3", 1, 12, flip, ctag),))
+                    scs = [s1, s2, s3]
+                    if join:
+                        # the second contaminant comes from another input scaffold: a join inside the contaminants file
+                        scs[1] = ("Scaffold_2", (("HAP2_SCAFFOLD_2", 1, 28, flip, ("Painted", "Hap2")),))
+                        scs[2] = ("Scaffold_3", (("HAP1_SCAFFOLD_3", 1, 12, flip, ctag), ("HAP2_SCAFFOLD_4", 1, 14, 1, ctag + xtag)))
+                    out.append((INP3, (2.0, tuple(scs))))
     return out
 
 
@@ -130,14 +153,18 @@ def check_outputs(case, files, seqs, ctx, validate_only=False):
 def check_c09_files(case, files, pvspec, ctx):
     """file names carry the routing: haplotigs / contaminants / falseduplicates / primary.curated"""
     tags = {t for _, ps in pvspec[1] for p in ps for t in p[4]}
-    want = {"Haplotig": "additional_haplotigs.curated.fa", "Contaminant": "contaminants.fa", "FalseDuplicate": "falseduplicates.fa"}
-    for t, sfx in want.items():
-        has = any(n.endswith(sfx) for n in files)
-        if (t in tags) != has:
-            # a tagged piece may have lost all its rows to a neighbour; only report files without a tag
-            if has and t not in tags:
-                ctx.violation("cli-unexpected-assembly-file", case, f"*{sfx} written but no piece is tagged {t}")
-    if not any(n.endswith("primary.curated.fa") for n in files) and not all(
+    want = {"Haplotig": ("additional_haplotigs.curated.fa", ".haplotigs.fa"), "Contaminant": (".contaminants.fa",), "FalseDuplicate": (".falseduplicates.fa",)}
+    # pieces that are whole input scaffolds cannot lose their rows to a neighbour: there the file must exist
+    whole = len(case) > 2 and all(any(p[0] == n and p[1] == 1 and p[2] == pv.scaffold_length(pv.tuplify(rows)) for n, rows in case[2]) for _, ps in pvspec[1] for p in ps)
+    for t, sfxs in want.items():
+        has = any(n.endswith(sfxs) for n in files)
+        # a piece carrying two destructive tags goes to one of them (FalseDuplicate / Haplotig before Contaminant)
+        expected = any(t in p[4] and not (t == "Contaminant" and ("FalseDuplicate" in p[4] or "Haplotig" in p[4])) and not (t == "Haplotig" and "FalseDuplicate" in p[4]) for _, ps in pvspec[1] for p in ps)
+        if has and t not in tags:
+            ctx.violation("cli-unexpected-assembly-file", case, f"*{sfxs[0]} written but no piece is tagged {t}")
+        elif whole and expected and not has:
+            ctx.violation("cli-tagged-assembly-file-missing", case, f"a piece is tagged {t} but no *{sfxs[-1]} was written: {sorted(files)!r}")
+    if not any(n.endswith("primary.curated.fa") for n in files) and not any("Hap1" in p[4] for _, ps in pvspec[1] for p in ps) and not all(
         any(t in p[4] for t in want) for _, ps in pvspec[1] for p in ps
     ):
         ctx.violation("cli-no-primary-file", case, f"{sorted(files)!r}")
@@ -151,7 +178,7 @@ def check_c11_files(case, files, ctx):
         ctx.violation("cli-no-info-yaml", case, f"{sorted(files)!r}")
         return
     info = yaml.safe_load(files[y])
-    hap = next((n for n in files if n.endswith("additional_haplotigs.curated.fa")), None)
+    hap = next((n for n in files if n.endswith(("additional_haplotigs.curated.fa", ".haplotigs.fa"))), None)
     nrec = sum(1 for ln in files[hap].split(b"\n") if ln.startswith(b">")) if hap else 0
     if info.get("manual_haplotig_removals") != nrec:
         ctx.violation("yaml-haplotig-removals", case, f"yaml says {info.get('manual_haplotig_removals')}, haplotig file has {nrec} records")
